@@ -97,16 +97,38 @@ def hold(F, R):
     b = F.body('value::Value::<T>::raw_value')
     if R.check(b is not None, 'B.C17.hold', 'anchor', 'Value::raw_value not found'):
         arms = {}
+        bad = []
+        src = {'FromModulator': "info::Info::<'a>::modulator_value(", 'FromListenerDistance': "info::Info::<'a>::listener_distance("}
         for p in explore(b):
             if p.end != 'return':
                 continue
+            arm = None
             for bb, desc, lab in p.decisions:
                 if desc.startswith('discr(') and lab in ('Fixed', 'FromModulator', 'FromListenerDistance'):
-                    arms[lab] = str(p.ret)
-        ok = arms.get('Fixed', '').startswith('std::option::Option::Some(') or 'Some' in arms.get('Fixed', '')
-        ok = ok and 'Option::<T>::map' in arms.get('FromModulator', '') and 'Option::<T>::map' in arms.get('FromListenerDistance', '')
-        R.check(ok, 'B.C17.hold', 'raw_value', 'Value::raw_value arms: %s (an unresolved modulator/listener must yield None via Option::map)' % arms,
-                detail=arms, where=b.file)
+                    arm = lab
+            if arm is None:
+                continue
+            ret = str(p.ret)
+            arms.setdefault(arm, set()).add(ret[:160])
+            if arm == 'Fixed':
+                if 'Some' not in ret:
+                    bad.append('Fixed yields %s' % ret[:80])
+                continue
+            # the linked source was asked, and "no value" propagates: Option::map, or a test of the result (`?`, match,
+            # if let) whose None side returns None and whose Some side returns Some(..)
+            tested = [(desc, lab) for bb, desc, lab in p.decisions if src[arm] in desc]
+            if not tested:
+                if not ('Option::<T>::map(' in ret and src[arm] in ret):
+                    bad.append('%s yields %s without consulting the source through Option::map' % (arm, ret[:80]))
+            else:
+                lab = tested[-1][1]
+                if lab in ('None', 'Break', '0') and not ('from_residual' in ret or ret.endswith('None') or 'Option::None' in ret):
+                    bad.append('%s: source absent but the result is %s' % (arm, ret[:80]))
+                if lab in ('Some', 'Continue', '1') and 'Some' not in ret:
+                    bad.append('%s: source present but the result is %s' % (arm, ret[:80]))
+        ok = not bad and set(arms) == {'Fixed', 'FromModulator', 'FromListenerDistance'}
+        R.check(ok, 'B.C17.hold', 'raw_value', 'Value::raw_value: %s (an unresolved modulator/listener must yield None)' % (bad or sorted(arms)),
+                detail={k: sorted(v) for k, v in arms.items()}, where=b.file)
         cm = [bb for bb, t in b.calls() if (callee_path(t) or '').endswith("info::Info::<'a>::modulator_value")]
         cd = [bb for bb, t in b.calls() if (callee_path(t) or '').endswith("info::Info::<'a>::listener_distance")]
         R.check(len(cm) == 1 and len(cd) == 1, 'B.C17.hold', 'sources', 'linked values are not read through Info::modulator_value / listener_distance',
